@@ -338,6 +338,7 @@ func (b *bigmachineExecutor) Run(task *Task) {
 		return
 	case m = <-offerc:
 	}
+	vtrace("BmGrant", task, m)
 	numTasks := m.Stats.Int("tasks")
 	numTasks.Add(1)
 	m.UpdateStatus()
@@ -428,8 +429,10 @@ compile:
 
 	b.sess.tracer.Event(m, task, "B")
 	task.Set(TaskRunning)
+	vtrace("BmCall", task, m, req.Machines)
 	var reply taskRunReply
 	err = m.RetryCall(ctx, "Worker.Run", req, &reply)
+	vtrace("BmReply", task, m, err)
 	statsCancel()
 	m.Done(procs, err)
 	switch {
@@ -440,9 +443,11 @@ compile:
 			"writeDuration", reply.Vals["writeDuration"]/1e3,
 		)
 		b.setLocation(task, m)
+		vtrace("BmSetLoc", task, m)
 		task.Status.Printf("done: %s", reply.Vals)
 		task.Scope.Reset(&reply.Scope)
 		task.Set(TaskOk)
+		vtrace("BmOkSet", task, m)
 		m.Assign(task)
 	case ctx.Err() != nil:
 		b.sess.tracer.Event(m, task, "E", "error", ctx.Err())
@@ -510,6 +515,7 @@ func (b *bigmachineExecutor) Discard(ctx context.Context, task *Task) {
 		return
 	}
 	task.state = TaskRunning
+	vtrace("BmDiscardClaim", task)
 	task.Unlock()
 	m := b.location(task)
 	if m == nil {
